@@ -236,12 +236,15 @@ def run(ctx):
         ctx.check(fpw.must(i, "sorted") and fpw.must(i, "watch-registered") and EM in LA.held_local(pw, i), "startup-load-sorted-under-lock", "order+lockset", pw.loc(i),
                   "existing files are added in sorted order, after the watch is registered, with the event-loop lock held",
                   "start-up loading is not (registered watch, sorted, under the lock)")
+    Xpw = Expander(P, pw)
     for i in srt:
-        a = [pw.text(x) for x in pw.nodes[i]["args"]]
-        ctx.check(a[0].endswith("files.begin()") and a[1].endswith("files.end()") and len(a) == 2, "startup-sort-by-name", "value-shape", pw.loc(i), "the file list is sorted by name (default comparison)",
-                  "sort arguments are " + str(a))
-    ls = loop_over(pw, "files")
-    ctx.check(len(ls) == 1 and forward_iteration(pw, ls[0]), "startup-load-in-order", "loop-shape", pw.loc(), "files are added in list order", "files are not added in list order")
+        a = [Xpw(x) for x in pw.nodes[i]["args"]]
+        ctx.check(len(a) == 2 and re.search(r"files\.begin\(\)$", a[0]) is not None and re.search(r"files\.end\(\)$", a[1]) is not None and a[0][:-len("begin()")] == a[1][:-len("end()")],
+                  "startup-sort-by-name", "value-shape", pw.loc(i), "the file list is sorted by name (default comparison)", "sort arguments are " + str(a))
+    addl = [l for l in loops(pw) if l["stmt"] is not None and any(pw.pos_of(i)[0] in l["body"] for i in adds)]
+    hdrs = [Xpw(pw.nodes[l["stmt"]]["range"]) if pw.nodes[l["stmt"]]["k"] == "rangefor" else " ".join(Xpw(pw.nodes[l["stmt"]][k]) for k in ("init", "c") if k in pw.nodes[l["stmt"]]) for l in addl]
+    ctx.check(len(addl) == 1 and forward_iteration(pw, addl[0]) and "files" in (hdrs[0] if hdrs else "") + loop_header(pw, addl[0]) + "".join(Xpw(x) for x in pw.walk(addl[0]["stmt"]) if pw.nodes[x]["k"] == "ref")[:400],
+              "startup-load-in-order", "loop-shape", pw.loc(), "files are added in list order", "files are not added in list order")
     # requests reach the main loop in the order the watcher made them (add v1, remove, add v2 must end on the add)
     from .C13 import handoff_queue_fifo
     handoff_queue_fifo(ctx)
